@@ -55,7 +55,9 @@ def mc(rep, mode, budget, maxpay=1, damage=False, optset="OptCore", liveness=Tru
 def make_stream(kind, data, rnd=None, faults=None, seg=None, bufsize=4096):
     """-> (stream object for RTCMReader, wrap?, info)"""
     if kind == "scripted":
-        return framer_rec.ScriptedStream(data, faults), True
+        st = framer_rec.ScriptedStream(data, faults)
+        st._verif_retries = 6 if faults else 0      # resume after injected empty answers
+        return st, True
     if kind == "bytesio":
         return io.BytesIO(data), True
     if kind == "buffered":
